@@ -31,7 +31,7 @@ static PROP: AgentProp = AgentProp {
 };
 
 pub fn run(ctx: &Ctx) -> EvidenceMeta {
-    drive(ctx, &PROP, 4_000, 200_000);
+    drive(ctx, &PROP, 25_000, 800_000);
     EvidenceMeta {
         rule: "histories as in C05 over 3 source addresses (IPv4 and IPv6) plus one address never used and the local address. Oracle: after \
                every call is_validated_peer(a) for all five addresses equals the model set, which grows exactly on a request/indication \
